@@ -64,7 +64,7 @@ impl Prop for C15 {
     type Input = Input;
 
     fn budget(tier: Tier) -> u64 {
-        tier.pick(100_000, 2_000_000)
+        tier.pick(400_000, 3_000_000)
     }
 
     fn strategy(tier: Tier) -> BoxedStrategy<Case> {
